@@ -102,6 +102,31 @@ func c19RefMatrixLine(n, m int) []int {
 	return line
 }
 
+// c19FirstRedrawLine: the smallest line 1..max of the reference construction for m fragments on which a draw is rejected
+// (r == m) and drawn again; 0 if none.
+func c19FirstRedrawLine(m, max int) int {
+	if m <= 0 || m&(m-1) != 0 {
+		return 0
+	}
+	for n := 1; n <= max; n++ {
+		x := 1 + 1001*n
+		for k := 0; k < m/2; k++ {
+			r := 1 << 16
+			first := true
+			for r >= m {
+				if !first {
+					return n
+				}
+				first = false
+				b0, b1 := x&1, (x>>5)&1
+				x = (x >> 1) + ((b0 ^ b1) << 22)
+				r = x % (m + 1)
+			}
+		}
+	}
+	return 0
+}
+
 // c19Parity (rule C19-R6.parity): for a grid of fragment counts and fragment sizes the encoder is interpreted on fully
 // symbolic data bytes (the fragment count, size and redundancy are concrete, so the pseudo-random matrix construction
 // runs on constants inside the interpreter); proved for all data at once: the result has w + redundancy rows, row i < w
@@ -122,6 +147,14 @@ func c19Parity(c *Ctx) {
 	// no redundancy (the data rows alone), one parity row, and an empty input
 	for _, g := range []cfg{{1, 1, 0}, {3, 7, 0}, {8, 16, 0}, {17, 9, 0}, {2, 8, 1}, {10, 7, 1}, {0, 8, 0}, {0, 8, 2}, {5, 3, -1}} {
 		grid = append(grid, g)
+	}
+	// the generator's re-draw (a draw equal to m, possible only when m is a power of two and the modulus is m+1) is the
+	// one branch of the matrix construction the points above may never take: for each power of two up to 16 add the
+	// first line on which the reference construction re-draws, with one-byte fragments
+	for _, w := range []int{2, 4, 8, 16} {
+		if n := c19FirstRedrawLine(w, 12); n > 4 {
+			grid = append(grid, cfg{w, 1, n})
+		}
 	}
 	if c.Tier == "thorough" {
 		// every fragment count 1..24 (powers of two — where the matrix uses the modulus m+1 — up to 16; 28 and 31) with
